@@ -350,7 +350,10 @@ def execute(scn, sb):
             h0, b0, i0 = seen[ck]
             if o.get("hash") != h0 or b != b0:
                 violations.append(["unstable-key", "build %d repeats the configuration of build %d but resolved to another entry" % (i, i0)])
-            elif compiles:
+            elif compiles and not (raced and i > min(raced)):
+                # (after a build that overlapped a rewrite of its kernel file the entry of that text may have been dropped
+                # on purpose - device::buildKernel discards an entry whose file changed under it - so a later repeat may
+                # compile again; it still has to resolve to the same entry and compute its own configuration's result)
                 violations.append(["recompiled", "build %d repeats build %d but ran the compiler %d time(s)" % (i, i0, compiles)])
         else:
             seen[ck] = (o.get("hash"), b, i)
